@@ -435,7 +435,10 @@ class WebSocketApp:
             elif op_code == ABNF.OPCODE_PING:
                 self._callback(self.on_ping, frame.data)
             elif op_code == ABNF.OPCODE_PONG:
-                self.last_pong_tm = time.time()
+                # only the first pong after a ping answers it; later (unsolicited) pongs must not
+                # make an answered ping look as if its pong had arrived too late
+                if self.last_pong_tm < self.last_ping_tm:
+                    self.last_pong_tm = time.time()
                 self._callback(self.on_pong, frame.data)
             elif op_code == ABNF.OPCODE_CONT and self.on_cont_message:
                 self._callback(self.on_data, frame.data, frame.opcode, frame.fin)
